@@ -267,10 +267,13 @@ def check_clog2(ctx, utils):
     W = 64 if ctx.quick else 256
     src = inspect.getsource(utils.clog2)
     n = z3.Int("n")
+    boundary_sweep(ctx, utils, 300)
     try:
         st = sym_exec_clog2(src, n, W + 1)
-    except Unsupported as e:
-        ctx.harness_error(f"clog2 uses a statement form the AST->z3 translator does not support: {e}")
+    except (Unsupported, Exception) as e:  # noqa
+        # the source uses a form the translator does not handle: no solver verdict for clog2 in this run (reported, never counted as success)
+        ctx.r.setdefault("extra", {})["clog2_solver_claim"] = f"NOT ESTABLISHED: AST->z3 translator does not support this implementation ({str(e)[:120]}); only the concrete boundary sweep ran"
+        ctx.note("clog2: solver claim not established (untranslatable source); boundary sweep only")
         return
     r = st["ret"]
     pre = z3.And(n >= 1, n <= 2 ** W)
@@ -300,6 +303,22 @@ def check_clog2(ctx, utils):
         s = z3.Solver()
         s.add(n == v, st["returned"], r == utils.clog2(v))
         ctx.side("clog2-translator-validation", s.check() == z3.sat, "clog2:translator", f"AST->z3 encoding disagrees with the real clog2 at n={v}")
+
+
+def boundary_sweep(ctx, utils, K):
+    """concrete side assertion: clog2 at 2^k-1, 2^k, 2^k+1 for k <= K and all n <= 4096 (catches float rounding etc.)"""
+    bad = []
+    pts = list(range(1, 4097)) + [2 ** k + d for k in range(12, K + 1) for d in (-1, 0, 1)]
+    for v in pts:
+        got, e = call(utils.clog2, v)
+        if e is not None or got != (v - 1).bit_length():
+            bad.append((v, got, repr(e)))
+            if len(bad) > 3:
+                break
+    ctx.side("clog2-boundaries", not bad, "clog2:wrong", f"clog2 differs from ceil(log2 n) at (n, got, exc) {bad[:2]}", {"points": bad[:4]})
+    for v in (0, -1, -7):
+        got, e = call(utils.clog2, v)
+        ctx.side("clog2-nonpositive", isinstance(e, ValueError), "clog2:accepts-nonpositive", f"clog2({v}) = {got!r} / {e!r}: expected ValueError")
 
 
 def replay_raise(utils, n):
